@@ -358,7 +358,7 @@ PROPS = {
         "lean_modules": ["SqlizeModel.Props.C04", "SqlizeModel.Props.TieElement", "SqlizeModel.Props.TieApiLoad", "SqlizeModel.Props.TieApiFiles"],
         "theorems": ["Sqlize.C04.converges", "Sqlize.C04.next_diff_empty", "Sqlize.C04.down_returns", "Sqlize.C04.history_schema",
                      "Sqlize.C04.model_converges", "Sqlize.C04.model_next_diff_empty", "Sqlize.rounds", "Sqlize.schema_up_vocab", "Sqlize.UpScope.of_equiv",
-                     "Sqlize.execAll_textual", "Sqlize.Migration.diff_plain", "Sqlize.Migration.migrate_mem", "Sqlize.Tie.element_skeleton_as_modelled", "Sqlize.Tie.api_load_skeleton_as_modelled", "Sqlize.Tie.api_files_skeleton_as_modelled", "Sqlize.C04.model_down_returns", "Sqlize.rounds_down", "Sqlize.exec_equiv", "Sqlize.execAll_equiv", "Sqlize.exec_nodup", "Sqlize.DBE.of_equiv"],
+                     "Sqlize.execAll_textual", "Sqlize.Migration.diff_plain", "Sqlize.Migration.migrate_mem", "Sqlize.Tie.element_skeleton_as_modelled", "Sqlize.Tie.api_load_skeleton_as_modelled", "Sqlize.Tie.api_files_skeleton_as_modelled", "Sqlize.C04.model_down_returns", "Sqlize.rounds_down", "Sqlize.exec_equiv", "Sqlize.execAll_equiv", "Sqlize.exec_nodup", "Sqlize.DBE.of_equiv", "Sqlize.C04.model_fingerprint", "Sqlize.rounds_fingerprint", "Sqlize.rounds_ordered", "Sqlize.hashOf_of_equiv", "Sqlize.foldl_stepNames", "Sqlize.execAll_groups_names", "Sqlize.hash_of_schema"],
         "suites": [{"name": "history", "timeout": 3600}],
         "corr_points": None,
         "rule": "history suite: revision sequences M1..Mk (k = 2..8 quick, ..40 thorough) of random schemas and C01 change sets (drop table, drop "
@@ -366,7 +366,7 @@ PROPS = {
                 "load models, load history (accumulated text, or WriteFiles + FromMigrationFolder with one second between writes), Diff, append; after "
                 "each step the history is reloaded and diffed against a fresh load of the models (must be empty both ways, equal HashValue); the Lean "
                 "driver replays every recorded up migration on the reference engine (must build the models' schema at each step) and the recorded "
-                "downs in reverse (must reach the empty schema). 2 hand-written histories first. non-trivial = every history; distinct by sequence",
+                "downs in reverse (must reach the empty schema). Hand-written histories first (among them a new table listed last = inside model_fingerprint, and listed first = the recorded finding). non-trivial = every history; distinct by sequence",
         "trusted_base": COMMON_TB + PAIR_TB + ["the composition theorem assumes the one-step properties (C01, C02, C03, C05, C07) as hypotheses; their proved parts and findings are listed under those properties"],
         "assumptions": ["file timestamps strictly increase (one write per second)", "old is not re-used after Diff"],
         "explanation": "Proved for histories of any length: convergence, empty next diff, equal fingerprint and the way back, as an assume-guarantee "
@@ -375,7 +375,9 @@ PROPS = {
                        "the history the workflow writes (each printed up migration appended as it reaches the text) is computed without error, is accepted by the reference engine "
                        "statement by statement, describes a schema DB.equiv to the newest revision's, and the next diff is empty both ways; and with the hypotheses of the C02 theorem at every step as well, "
                        "replaying the recorded down migrations newest first from the newest revision's schema is well-formed at every statement and ends in the empty schema (model_down_returns; the steps compose because the reference engine "
-                       "respects TableSpec.equiv, exec_equiv). Outside that scope, the fingerprint clause and the "
+                       "respects TableSpec.equiv, exec_equiv); and the fingerprint clause (model_fingerprint): when at every step the tables two consecutive revisions share come first in the same relative order and the new ones after them (ChainOrdered), "
+                       "the fingerprint of the history equals the fingerprint of the newest revision, for any digest functions — the whole-schema theorem of C01 carries the order of the tables (namesAfter), HashValue is a function of the reference schema (C07) and equal for equivalent schemas in the same order; "
+                       "outside ChainOrdered the clause is false of model and code alike: recorded finding fingerprint-table-order, shown against the real code by the history witness. Outside that scope and for the "
                        "round trip through files: the real multi-step workflow is driven on every run and every recorded migration is "
                        "replayed on the reference engine.",
     },
